@@ -54,7 +54,35 @@ def check_trapz(rep, prog):
     for n in own_nodes(fn):
         if isinstance(n, ast.Assign) and isinstance(n.targets[0], ast.Subscript) and ast.unparse(n.targets[0].slice) == 'axis':
             sl[ast.unparse(n.targets[0].value)] = ast.unparse(n.value)
-    ret = [n for n in own_nodes(fn) if isinstance(n, ast.Return)][-1]
+    rets_all = [n for n in own_nodes(fn) if isinstance(n, ast.Return)]
+    ret = rets_all[-1]
+    # every other return path (fast paths) must also be the trapezoid rule ALONG `axis`: a contraction with the node weights
+    # whose contracted axis is provably `axis` (numpy.dot contracts the second-to-last axis of an N-D operand, not the first)
+    for extra in rets_all[:-1]:
+        v = extra.value
+        guards = []
+        par, child = getattr(extra, '_parent', None), extra
+        while par is not None and par is not fn:
+            if isinstance(par, ast.If):
+                guards.append(ast.unparse(par.test).replace(' ', '') if child in par.body else 'not(' + ast.unparse(par.test).replace(' ', '') + ')')
+            child, par = par, getattr(par, '_parent', None)
+        g = ' and '.join(guards)
+        okx = False
+        why = 'return `%s` under `%s`' % (ast.unparse(v)[:60] if v is not None else None, g)
+        wdef = [ast.unparse(n).replace(' ', '') for n in own_nodes(fn) if isinstance(n, (ast.Assign, ast.AugAssign)) and ast.unparse(n.targets[0] if isinstance(n, ast.Assign) else n.target).startswith('weights')]
+        okw = sorted(wdef) == sorted(['weights=numpy.zeros(len(dx)+1)', 'weights[:-1]+=dx/2.0', 'weights[1:]+=dx/2.0'])
+        if isinstance(v, ast.Call) and okw:
+            f = dotted(v.func) or ''
+            a = [ast.unparse(x).replace(' ', '') for x in v.args]
+            kw = {k.arg: ast.unparse(k.value).replace(' ', '') for k in v.keywords}
+            if f in ('numpy.tensordot', 'np.tensordot') and a[:2] == ['weights', 'yy'] and kw.get('axes', a[2] if len(a) > 2 else '') in ('(0,axis)', '([0],[axis])', '[[0],[axis]]'):
+                okx = True
+            elif f in ('numpy.dot', 'np.dot') and a == ['weights', 'yy']:
+                # valid only when yy is 1-D, or 2-D with axis == 0
+                okx = any(x in g for x in ('nd==1', 'yy.ndim==1')) or (('axis==0' in g) and any(x in g for x in ('nd==2', 'nd<=2', 'yy.ndim==2', 'yy.ndim<=2', 'nd<3', 'yy.ndim<3')))
+                if not okx:
+                    why += ': numpy.dot(weights, yy) contracts the second-to-last axis of yy when yy has more than two dimensions'
+        rep.ob('R-ALG', 'Numerics.trapz fast path', okx, why, m.rel, extra.lineno, what='every return path integrates along the requested axis with the trapezoid weights')
     ok = sl.get('slice1') == 'slice(1, None)' and sl.get('slice2') == 'slice(None, -1)' and sl.get('sliceX') == 'slice(None)'
     try:
         e = parse_expr(ast.unparse(ret.value.args[0]).replace('dx[sliceX]', 'DX').replace('yy[slice1]', 'Y1').replace('yy[slice2]', 'Y0'))
